@@ -371,7 +371,7 @@ def mode_b(dc, sc, res, rng, seed, topo, label, nclients, nops):
     # free runs also cover rollback-journal databases, where a committing writer keeps readers out for a moment
     journal = rng.choice(['wal', 'wal', 'delete', 'truncate', 'persist'])
     res.count('free_runs_journal_' + ('wal' if journal == 'wal' else 'rollback'))
-    setup = dc.Cache(d, disk_min_file_size=T, sqlite_journal_mode=journal)
+    setup = dc.Cache(d, disk_min_file_size=T, **common.journal_kw(journal))
     setup.close()
     ops = []
     if topo == 'processes':
